@@ -1580,6 +1580,9 @@ func (p *pipe) DoCache(ctx context.Context, cmd Cacheable, ttl time.Duration) Re
 	)
 	defer resultsp.Put(resp)
 	exec, err := resp.s[4].ToArray()
+	if err == nil && len(exec) < 2 {
+		err = errShortExec
+	}
 	if err != nil {
 		if _, ok := err.(*RedisError); ok {
 			err = ErrDoCacheAborted
@@ -1650,6 +1653,9 @@ func (p *pipe) doCacheMGet(ctx context.Context, cmd Cacheable, ttl time.Duration
 		resp := p.DoMulti(ctx, multi...)
 		defer resultsp.Put(resp)
 		exec, err := resp.s[len(multi)-1].ToArray()
+		if err == nil && len(exec) != keys+1 {
+			err = errShortExec
+		}
 		if err != nil {
 			if _, ok := err.(*RedisError); ok {
 				err = ErrDoCacheAborted
@@ -1775,7 +1781,11 @@ func (p *pipe) DoMultiCache(ctx context.Context, multi ...CacheableTTL) *redisre
 			// EXEC-level cancel on transaction abort; EXEC reply at offset 4 of each stride-5.
 			const stride, offset = 5, 4
 			for i := offset; i < len(resp.s); i += stride {
-				if err := resp.s[i].Error(); err != nil {
+				err := resp.s[i].Error()
+				if exec, _ := resp.s[i].ToArray(); err == nil && len(exec) < 2 {
+					err = errShortExec
+				}
+				if err != nil {
 					if _, ok := err.(*RedisError); ok {
 						err = ErrDoCacheAborted
 						if preErr := resp.s[i-1].Error(); preErr != nil { // if {cmd} get a RedisError
@@ -1830,6 +1840,9 @@ func (p *pipe) DoMultiCache(ctx context.Context, multi ...CacheableTTL) *redisre
 		for ; j < len(results.s); j++ {
 			if results.s[j].val.typ == 0 && results.s[j].err == nil {
 				exec, err := resp.s[i].ToArray()
+				if err == nil && len(exec) < 2 {
+					err = errShortExec
+				}
 				if err != nil {
 					if _, ok := err.(*RedisError); ok {
 						err = ErrDoCacheAborted
@@ -2028,6 +2041,9 @@ const (
 	multiexecsub = "SUBSCRIBE/UNSUBSCRIBE are not allowed in MULTI/EXEC block"
 	panicmgetcsc = "MGET and JSON.MGET in DoMultiCache are not implemented, use DoCache instead"
 )
+
+// errShortExec reports an EXEC reply that does not carry the replies of the commands of the caching transaction
+var errShortExec = errors.New("unexpected EXEC reply of a client side caching transaction")
 
 var cacheMark = &(RedisMessage{})
 var (
